@@ -1,0 +1,247 @@
+//go:build verif
+
+package nfsv4
+
+import (
+	"bytes"
+	"sort"
+	"time"
+
+	"github.com/buildbarn/go-xdr/pkg/protocols/nfsv4"
+)
+
+// This file only exists in builds with the "verif" tag. It provides a
+// read-only, canonically ordered dump of the bookkeeping of an NFSv4.1
+// program, so that it can be compared against a formal model. None of
+// the functions below modify any state.
+
+// Verif41LockOwnerFile is the dump of an nfs41LockOwnerFileState.
+type Verif41LockOwnerFile struct {
+	Other       uint64
+	Seq         uint32
+	OwnerKey    string
+	OwnerTag    int
+	ShareAccess uint32
+	LockCount   int
+}
+
+// Verif41OpenOwnerFile is the dump of an nfs41OpenOwnerFileState.
+type Verif41OpenOwnerFile struct {
+	Other          uint64
+	Seq            uint32
+	OwnerKey       string
+	Handle         []byte
+	ShareAccess    uint32
+	Readers        int
+	Writers        int
+	LockOwnerFiles []Verif41LockOwnerFile
+}
+
+// Verif41LockOwner is the dump of an entry of lockOwnersByOwner.
+type Verif41LockOwner struct {
+	Key       string
+	FileCount int
+}
+
+// Verif41Client is the dump of a clientIncarnationState.
+type Verif41Client struct {
+	ClientID         uint64
+	OwnerID          string
+	Verifier         [8]byte
+	Confirmed        bool
+	HoldCount        int
+	LastSeen         time.Time // Only meaningful if HoldCount == 0.
+	LastSequenceID   uint32
+	LastStateIDOther uint64
+	OpenOwners       int
+	LockOwnerFiles   int
+	OpenOwnerFiles   []Verif41OpenOwnerFile
+	LockOwners       []Verif41LockOwner
+}
+
+// Verif41Slot is the dump of a slotState.
+type Verif41Slot struct {
+	LastSequenceID uint32
+	LastStatus     uint32
+	LastResults    int
+	InFlight       bool
+	Waiters        int
+}
+
+// Verif41Session is the dump of a sessionState.
+type Verif41Session struct {
+	SessionID [16]byte
+	ClientID  uint64
+	Slots     []Verif41Slot
+}
+
+// Verif41PoolLock is the dump of a byte-range lock.
+type Verif41PoolLock struct {
+	Start    uint64
+	End      uint64
+	ClientID uint64
+	OwnerKey string
+	OwnerTag int
+	Type     int
+}
+
+// Verif41PoolFile is the dump of an OpenedFile.
+type Verif41PoolFile struct {
+	Handle   []byte
+	UseCount int
+	Locks    []Verif41PoolLock
+}
+
+// Verif41Dump is the dump of an nfs41Program and its OpenedFilesPool.
+type Verif41Dump struct {
+	Now      time.Time
+	Clients  []Verif41Client
+	Idle     []uint64
+	Sessions []Verif41Session
+	Pool     []Verif41PoolFile
+}
+
+// VerifDump41 returns a dump of all client, session, open, lock and
+// opened file records of an NFSv4.1 program. It returns nil for other
+// program types.
+//
+// Lock-owner objects are compared by address by the byte-range lock
+// table. To make that identity visible, every reference to a
+// lock-owner is reported with a tag: zero if the object is the one
+// registered in the client's lockOwnersByOwner map, a positive number
+// for other live objects with the same key, and -1 for references to
+// objects that are not reachable from any lock-owner file.
+func VerifDump41(program nfsv4.Nfs4Program) *Verif41Dump {
+	p, ok := program.(*nfs41Program)
+	if !ok {
+		return nil
+	}
+	d := &Verif41Dump{}
+	tags := map[*nfsv4.LockOwner4]int{}
+
+	p.clientsLock.Lock()
+	d.Now = p.now
+	for cis := p.idleClientIncarnations.nextIdle; cis != &p.idleClientIncarnations; cis = cis.nextIdle {
+		d.Idle = append(d.Idle, cis.clientID)
+	}
+	for _, cis := range p.clientIncarnationsByClientID {
+		cis.lock.RLock()
+		c := Verif41Client{
+			ClientID:         cis.clientID,
+			OwnerID:          cis.client.ownerID,
+			Verifier:         cis.clientVerifier,
+			Confirmed:        cis.client.confirmedIncarnation == cis,
+			HoldCount:        cis.holdCount,
+			LastSequenceID:   cis.lastSequenceID,
+			LastStateIDOther: cis.lastStateIDOther,
+			OpenOwners:       len(cis.openOwnersByOwner),
+			LockOwnerFiles:   len(cis.lockOwnerFilesByOther),
+		}
+		if cis.holdCount == 0 {
+			c.LastSeen = cis.lastSeen
+		}
+		for key, los := range cis.lockOwnersByOwner {
+			c.LockOwners = append(c.LockOwners, Verif41LockOwner{Key: key, FileCount: int(los.fileCount)})
+			tags[&los.owner] = 0
+		}
+		sort.Slice(c.LockOwners, func(i, j int) bool { return c.LockOwners[i].Key < c.LockOwners[j].Key })
+
+		// Assign tags to lock-owner objects that are referenced
+		// by lock-owner files, but are not registered.
+		var oofsList []*nfs41OpenOwnerFileState
+		for _, oofs := range cis.openOwnerFilesByOther {
+			oofsList = append(oofsList, oofs)
+		}
+		sort.Slice(oofsList, func(i, j int) bool { return oofsList[i].stateID.other < oofsList[j].stateID.other })
+		nextTag := map[string]int{}
+		for _, oofs := range oofsList {
+			var lofsList []*nfs41LockOwnerFileState
+			for _, lofs := range oofs.lockOwnerFiles {
+				lofsList = append(lofsList, lofs)
+			}
+			sort.Slice(lofsList, func(i, j int) bool { return lofsList[i].stateID.other < lofsList[j].stateID.other })
+			o := Verif41OpenOwnerFile{
+				Other:       oofs.stateID.other,
+				Seq:         oofs.stateID.seqID,
+				OwnerKey:    oofs.openOwner.key,
+				Handle:      append([]byte(nil), oofs.openedFile.GetHandle()...),
+				ShareAccess: uint32(oofs.shareAccess),
+				Readers:     int(oofs.shareCount.readers),
+				Writers:     int(oofs.shareCount.writers),
+			}
+			for _, lofs := range lofsList {
+				los := lofs.lockOwner
+				key := string(los.owner.Owner)
+				tag, ok := tags[&los.owner]
+				if !ok {
+					nextTag[key]++
+					tag = nextTag[key]
+					tags[&los.owner] = tag
+				}
+				o.LockOwnerFiles = append(o.LockOwnerFiles, Verif41LockOwnerFile{
+					Other:       lofs.stateID.other,
+					Seq:         lofs.stateID.seqID,
+					OwnerKey:    key,
+					OwnerTag:    tag,
+					ShareAccess: uint32(lofs.shareAccess),
+					LockCount:   lofs.lockCount,
+				})
+			}
+			c.OpenOwnerFiles = append(c.OpenOwnerFiles, o)
+		}
+		cis.lock.RUnlock()
+		d.Clients = append(d.Clients, c)
+	}
+	sort.Slice(d.Clients, func(i, j int) bool { return d.Clients[i].ClientID < d.Clients[j].ClientID })
+
+	for _, session := range p.sessionsBySessionID {
+		s := Verif41Session{
+			SessionID: session.sessionID,
+			ClientID:  session.clientIncarnation.clientID,
+		}
+		for i := range session.slots {
+			slot := &session.slots[i]
+			s.Slots = append(s.Slots, Verif41Slot{
+				LastSequenceID: slot.lastSequenceID,
+				LastStatus:     uint32(slot.lastResult.status),
+				LastResults:    len(slot.lastResult.resArray),
+				InFlight:       slot.currentSequenceWaiters != nil,
+				Waiters:        len(slot.currentSequenceWaiters),
+			})
+		}
+		d.Sessions = append(d.Sessions, s)
+	}
+	sort.Slice(d.Sessions, func(i, j int) bool {
+		return bytes.Compare(d.Sessions[i].SessionID[:], d.Sessions[j].SessionID[:]) < 0
+	})
+	p.clientsLock.Unlock()
+
+	ofp := p.openedFilesPool
+	ofp.lock.RLock()
+	for _, of := range ofp.filesByHandle {
+		f := Verif41PoolFile{
+			Handle:   append([]byte(nil), of.handle...),
+			UseCount: int(of.useCount),
+		}
+		of.locksLock.RLock()
+		for _, l := range of.locks.VerifEntries() {
+			tag, ok := tags[l.Owner]
+			if !ok {
+				tag = -1
+			}
+			f.Locks = append(f.Locks, Verif41PoolLock{
+				Start:    l.Start,
+				End:      l.End,
+				ClientID: l.Owner.Clientid,
+				OwnerKey: string(l.Owner.Owner),
+				OwnerTag: tag,
+				Type:     int(l.Type),
+			})
+		}
+		of.locksLock.RUnlock()
+		d.Pool = append(d.Pool, f)
+	}
+	ofp.lock.RUnlock()
+	sort.Slice(d.Pool, func(i, j int) bool { return bytes.Compare(d.Pool[i].Handle, d.Pool[j].Handle) < 0 })
+	return d
+}
